@@ -131,6 +131,49 @@ def nearly_decomposable(rng, n, eps):
     return W
 
 
+def stored_dtype_chain(rng, kind, reducible):
+    """rows summing to 1 exactly with entries in {0,1} (kind='int': every state has exactly one successor) or in
+    multiples of 1/8 (kind='dyadic'); recurrent classes are cycles of length 2..4 (with chords for 'dyadic'),
+    transient states lead into them; random numbering"""
+    lens = rng.choice([[2, 3], [2, 2], [3, 4], [4, 2], [2, 2, 2], [2, 3, 2]]) if reducible else [rng.randrange(2, 7)]
+    t = rng.randrange(1, 9 - sum(lens)) if reducible and sum(lens) < 8 else 0
+    n = t + sum(lens)
+    W = [[Fraction(0)] * n for _ in range(n)]
+    base = t
+    blocks = []
+    for L in lens:
+        blocks.append(list(range(base, base + L)))
+        base += L
+    for blk in blocks:
+        L = len(blk)
+        for a, i in enumerate(blk):
+            succ = blk[(a + 1) % L]
+            if kind == "int":
+                W[i][succ] = Fraction(1)
+            else:
+                others = rng.sample(blk, rng.randrange(0, min(3, L) + 1))
+                parts = [succ] + [o for o in others if o != succ]
+                cuts = sorted(rng.sample(range(1, 8), len(parts) - 1)) if len(parts) > 1 else []
+                ws = [b - a_ for a_, b in zip([0] + cuts, cuts + [8])]
+                for tg, w in zip(parts, ws):
+                    W[i][tg] += Fraction(w, 8)
+    for i in range(t):
+        targets = list(range(i + 1, n))
+        if kind == "int":
+            W[i][rng.choice(targets)] = Fraction(1)
+        else:
+            parts = rng.sample(targets, min(len(targets), rng.randrange(1, 4)))
+            if rng.random() < 0.4:
+                parts.append(i)
+            cuts = sorted(rng.sample(range(1, 8), len(parts) - 1)) if len(parts) > 1 else []
+            ws = [b - a_ for a_, b in zip([0] + cuts, cuts + [8])]
+            for tg, w in zip(parts, ws):
+                W[i][tg] += Fraction(w, 8)
+    perm = list(range(n))
+    rng.shuffle(perm)
+    return permute(W, perm)
+
+
 def to_stochastic(W):
     """float row-normalised matrix (row sums 1 up to rounding)"""
     A = np.array([[float(x) for x in r] for r in W])
@@ -237,8 +280,11 @@ def run_matrix(ctx, A, origin, st, is_stochastic):
     if not is_stochastic:
         return
     rows_by_form = {}
+    base = np.array(A)            # the matrix in its STORAGE dtype (int8/int32/int64/float16/float32/float64)
     for form in ("dense", "csr", "func"):
-        arg = sparse.csr_matrix(Afl) if form == "csr" else Afl.copy()
+        if form == "csr" and base.dtype == np.float16:
+            continue              # scipy.sparse has no float16
+        arg = sparse.csr_matrix(base) if form == "csr" else base.copy()
         snap = arg.copy()
         try:
             if form == "func":
@@ -335,6 +381,16 @@ def run(ctx):
         perm = list(range(len(W)))
         rng.shuffle(perm)
         run_matrix(ctx, to_stochastic(permute(W, perm)), "many_recurrent", st, True)
+    # 2c. chains STORED with an integer or a narrow float dtype (entries exactly representable, rows sum to 1 exactly):
+    #     the result must be the float64-accurate stationary vector whatever the storage dtype
+    for _ in range(10 * reps):
+        for kind in ("int", "dyadic"):
+            W = stored_dtype_chain(rng, kind, reducible=rng.random() < 0.75)
+            dts = [np.int8, np.int32, np.int64] if kind == "int" else [np.float32, np.float16, np.float64]
+            for dt in rng.sample(dts, 2):
+                M = np.array([[float(v) for v in r] for r in W]).astype(dt)
+                assert np.array_equal(M.astype(float), np.array([[float(v) for v in r] for r in W]))
+                run_matrix(ctx, M, "stored_%s" % np.dtype(dt).name, st, True)
     # 3. nearly decomposable, entries down to 1e-12
     for _ in range(40 * reps):
         n = rng.randrange(2, 9)
